@@ -14,7 +14,11 @@ Rec == ndJsonDeserialize(IOEnv.VERIF_TRACE)
 
 VARIABLE l
 
-Accept(r) == Range(r.outcomes) = SelectedSet(Range(r.names), Range(r.run), Range(r.skip))
+\* setup: permutations recorded as setup failures.  With healthy reference peers there are none - in particular
+\* when all servers must share one port with --max-servers 1 ("never more than --max-servers server processes
+\* are alive at once": a second one could not bind).
+Accept(r) == /\ Range(r.outcomes) = SelectedSet(Range(r.names), Range(r.run), Range(r.skip))
+             /\ r.setup = <<>>
 
 TraceInit == l = 1
 TraceNext == /\ l <= Len(Rec)
